@@ -97,3 +97,12 @@ Theorem C09_only_required_domains_imported :
   forall r d, (forall dv, In dv r -> fold_domain (fst dv) <> d) -> lookup String.eqb d (max_opset_policy r) = None.
 Proof. exact policy_imports_only_required_domains. Qed.
 Print Assumptions C09_only_required_domains_imported.
+
+(* More requirements never lower an import: merging the requirements of bodies, functions and inlined models into the owner's (on either
+   side) keeps every import at or above what the owner alone needs. *)
+Theorem C09_more_requirements_never_lower_an_import :
+  forall (r extra : req) d v, lookup String.eqb d (max_opset_policy r) = Some v ->
+  exists w, lookup String.eqb d (max_opset_policy (r ++ extra)%list) = Some w /\ v <= w /\
+            lookup String.eqb d (max_opset_policy (extra ++ r)%list) = Some w.
+Proof. exact policy_monotone. Qed.
+Print Assumptions C09_more_requirements_never_lower_an_import.
